@@ -518,9 +518,9 @@ class ServiceDiscoveryProtocol(SOMEIPDatagramProtocol):
 
         for entry in sdhdr.entries:
             if entry.sd_type == someip.header.SOMEIPSDEntryType.OfferService:
-                asyncio.get_event_loop().call_soon(
-                    self.discovery.handle_offer, entry, addr
-                )
+                # handled in message order, like all other entries: deferring it would
+                # let the reboot handling of a later datagram overtake this offer
+                self.discovery.handle_offer(entry, addr)
                 continue
 
             if entry.sd_type == someip.header.SOMEIPSDEntryType.SubscribeAck:
